@@ -231,6 +231,9 @@ func Main(t *testing.T, name string, h Harness) {
 	}
 }
 
+// RunIndex is the index of the run being generated (for harnesses that partition a finite table over runs).
+var RunIndex int
+
 var watchdogCh = make(chan string, 1)
 
 func startWatchdog() {
@@ -284,6 +287,7 @@ func batch(t *testing.T, name string, h Harness) {
 		if *fOut != "" {
 			_ = os.WriteFile(*fOut+".progress", []byte(fmt.Sprint(idx)), 0o644)
 		}
+		RunIndex = idx
 		plan := h.Generate(*fProp, PlanRNG(*fSeed, *fProp, idx, 0), *fTier)
 		cfg := DrawConfig(*fSeed, *fProp, idx)
 		cfg.KeepLabels = *fTrace
